@@ -196,8 +196,43 @@ def r16_2b(ctx: Ctx, rule="R16.2"):
     direct = [c_ for c_ in calls_in(lp) if call_name(c_) == "append" and c_.args and norm(c_.args[0]) == lv and isinstance(c_.func.value, ast.Name)]
     keyed = [c_ for c_ in calls_in(lp) if call_name(c_) == "append" and c_.args and norm(c_.args[0]) == lv and isinstance(c_.func.value, ast.Subscript)]
     if direct and not keyed:
-        ctx.ob(rule, init, direct[0], True, "lines are appended to a container held in a local (`%s`), not to self[<current section>]; the "
-               "filing of lines is not decided on this tree" % norm(direct[0]), undecided=True, node=direct[0])
+        # the same discipline for this representation: the local is the header list before the loop, every section-header line
+        # rebinds it to self[<name on that line>] (whether or not the section is new), every other line is appended to it once
+        cl = direct[0].func.value.id
+        name_var = None
+        for s_ in walk_no_nested(lp):
+            if isinstance(s_, ast.Assign) and isinstance(s_.targets[0], ast.Name) and "findall" in norm(s_.value):
+                name_var = s_.targets[0].id
+        inits = [s_ for s_ in stmts_sorted(init.node) if isinstance(s_, ast.Assign) and any(norm(t_) == cl for t_ in s_.targets) and s_.lineno < lp.lineno]
+        ctx.ob(rule, init, inits[-1] if inits else "initial container", bool(inits) and (
+            norm(inits[-1].value) == "self['header']" or any(norm(t_) == "self['header']" for t_ in inits[-1].targets)),
+               "lines before the first section go to the header list (the container starts as self['header'])", node=inits[-1] if inits else lp)
+        npaths = 0
+        for p in _rf16(enum_paths(lp.body)):
+            hdr = None
+            for t, o in p.conds():
+                tt, neg = t, False
+                while isinstance(tt, ast.UnaryOp) and isinstance(tt.op, ast.Not):
+                    tt, neg = tt.operand, not neg
+                if isinstance(tt, ast.Call) and "match" in norm(tt.func) and "\\[" in norm(tt):
+                    hdr = (o != neg)
+            st = p.stmts()
+            apps = [x for x in st if norm(x) == "%s.append(%s)" % (cl, lv)]
+            rebinds = [x for x in st if isinstance(x, ast.Assign) and norm(x.targets[0]) == cl]
+            npaths += 1
+            if hdr is None:
+                ctx.ob(rule, init, "loop path: %s" % p.describe()[:160], False, "every line is classified as section header or not", node=lp)
+            elif hdr:
+                okh = not apps and len(rebinds) == 1 and name_var is not None and norm(rebinds[0].value) == "self[%s]" % name_var
+                ctx.ob(rule, init, "header-line path: %s" % p.describe()[:140], okh,
+                       "a `[ name ]` line switches the container lines are filed into to self[name] - for a repeated name as well as "
+                       "for a new one" + ("" if okh else " -- on this path the container is %s" % (
+                           "not switched: the lines that follow go to the section that was open before" if not rebinds else "switched to `%s`" % norm(rebinds[0].value))),
+                       node=lp)
+            else:
+                ctx.ob(rule, init, "ordinary-line path: %s" % p.describe()[:140], len(apps) == 1 and not rebinds,
+                       "an ordinary line is appended, unchanged and once, to the container of the current section", node=lp)
+        ctx.floor(rule, npaths, 3, "paths of the reader loop")
         return
     switch_paths = []
     for p in _rf16(enum_paths(lp.body)):
